@@ -756,7 +756,9 @@ def r5(ctx):
         return
     O = X.Origins(p, P)
     sites = [cs for cs in p.calls() if cs.name in ("integer_with_range_opt", "integer_with_range")]
-    if not sites:
+    # `parse_range(input).map(Type::integer_with_range_opt)`: the constructor handed to a combinator as a function item
+    by_item = [cs for cs in p.calls() if any(a.get("k") == "const" and "integer_with_range" in (a.get("ty") or "") for a in cs.args)]
+    if not sites and not by_item:
         ctx.fail(rule, "anchor-lost:integer_with_range_opt", "the integer arm no longer builds the type through integer_with_range_opt",
                  "%s:%d" % (p.file, p.line))
         return
@@ -768,6 +770,7 @@ def r5(ctx):
     parses = [cs for cs in p.calls() if cs.name == "parse" and "IntegerRange" in (cs.callee or "")]
     if not parses:
         ctx.fail(rule, "anchor-lost:IntegerRange::parse", "the integer arm no longer calls IntegerRange::parse", "%s:%d" % (p.file, p.line))
+    checked = 0
     for pc in parses:
         if pc.target is None:
             continue
@@ -780,7 +783,8 @@ def r5(ctx):
         for bb, j, st in p.all_statements():
             rv = st.get("rv") or {}
             if st["k"] == "assign" and rv.get("k") == "agg" and rv.get("adt", "").endswith("result::Result") and rv.get("variant") == "Ok" \
-                    and p.dominates(pc.target, bb) and "Type" in (st.get("pty") or ""):
+                    and p.dominates(pc.target, bb) and ("Type" in (st.get("pty") or "") or "Range<" in (st.get("pty") or "")):
+                checked += 1
                 payload = O.operand(rv["ops"][0], bb, j)
                 d = {"returned": F.rd(payload)[:200], "at": span_loc(st["sp"])}
                 if depends(payload):
@@ -789,6 +793,8 @@ def r5(ctx):
                     ctx.fail(rule, "integer#extensible-dropped-on-a-path", "after the range was parsed the attribute parser returns `%s`, which does "
                                                                            "not depend on the parsed `,...` flag: `integer(min..max,...)` is read back "
                                                                            "as not extensible" % F.rd(payload)[:80], span_loc(st["sp"]), d)
+    if not sites and not checked:
+        ctx.fail(rule, "anchor-lost:returned-range", "no Range / Type is returned after IntegerRange::parse", "%s:%d" % (p.file, p.line))
     for cs in sites:
         a = O.call_args(cs)[0]
         everywhere = any(is_flag(e) for e in X.walk(a))
